@@ -126,7 +126,7 @@ PROPS = {
    'outside': 'memory safety of the sparse kernels under CBMC: attempted (ir2c/kernels/k_sparse*): 1x1 verifies in 12 s, 2x2 needs ~8 min -> not part of the registered check; connectivity/ordering are integer-only and therefore enumerated, not solver-quantified; graphs with more than 6 nodes',
    'assumptions': ADJ_ASSUME},
  'C18': {'e1': [{'harness': 'geo', 'entry_points': ['GNU_gama::gon2deg', 'dms2rad', 'rad2dms', 'GNU_gama::local::bearing_distance']}], 'e2': [K_INTFLOAT],
-   'must_reach': ['geo-gon2deg', 'geo-deg2gon', 'geo-dms', 'geo-bearing', 'geo-cut'],
+   'must_reach': ['geo-gon2deg', 'geo-deg2gon', 'geo-near', 'geo-dms', 'geo-bearing', 'geo-cut'],
    'technique': 'symbolic execution of the angle conversions with the angle symbolic inside windows around every field boundary (integer truncations forked by the solver; the formatted seconds field travels as a term through the real iostream formatting) and of bearing_distance on symbolic point pairs (atan2 contract); CBMC on the literal recognisers',
    'bounds': 'gon2deg: 6 windows (0, seconds carry, minute carry, 100 gon, negative, generic) x sign modes 0..3 x precision 1..2 (1..4 thorough); dms2rad/rad2dms: 5 windows, tolerance 1e-9 for the round trip; bearing_distance: all point pairs with coordinates in [-1e5,1e5] at least 0.1 m apart plus the 1e-6 cut; recognisers: all byte strings <= 6 (8) bytes',
    'outside': 'Ellipsoid::blh2xyz/xyz2blh round trip and its documented bound (Bowring formula with sin/cos/atan of non-special arguments: transcendental, L4), the ellipsoid table, deg2gon (parses with istringstream: text, L5), latlong string formatting',
